@@ -43,6 +43,30 @@ CLAIMS = {
     ),
 }
 
+CLAIMS["C04"] = (
+    "4/C04",
+    "CFG rules on the dispatcher: guarded-site, must-pass-through, flag-conditioned reachability, provenance slices",
+    "Decides, for every path of InnerDispatcher::poll_flush / read_available / poll_linger / Dispatcher::poll: flush "
+    "accounting (Pending only after advance(written), socket flush only after clear() on the loop-exit edge, counter "
+    "grows only by poll_write's result), waker hand-off (literal Pending dominated by a context-taking call; final "
+    "Pending self-wakes whenever LINGER or SHUTDOWN is set; buffer-full exit waits for the consumer or self-wakes; "
+    "finished linger self-wakes) and the shutdown chain (EOF -> READ_DISCONNECT with body failed before its end is "
+    "signalled -> SHUTDOWN -> flush then poll_shutdown). Path facts hold for every readiness pattern, which the "
+    "scripted-buffer tests cannot vary. Liveness proper and exactly-once delivery of byte values are not decided.",
+)
+CLAIMS["C14"] = (
+    "4/C14",
+    "guarded-site + never-reach + switch-table extraction checked against RFC 6455 reference tables + flag effect sets",
+    "Decides structural clauses of the frame codec on every path: oversized frames are refused before buffering and no "
+    "delivered frame exceeds max_size (found and fixed: need-more returned for an oversized incomplete frame), need-more "
+    "returns consume nothing, opcode tables are mutually inverse and equal RFC 6455, writer length classes agree with "
+    "reader markers and every wide read is dominated by its length test, masking mismatches and reserved opcodes are "
+    "rejected, Ping/Pong > 125 and fragmented control frames are rejected, continuation flags are tested on every data "
+    "arm and changed only on the right arms (found and fixed: complete data frame accepted inside a fragmented "
+    "message), handshake rejections dominate acceptance and the accept key uses the RFC GUID. Payload round-trip "
+    "equality and masking arithmetic are not decided.",
+)
+
 NOT_YET = "check not built yet in this round (planned per DESIGN.md section 4); not claimed until it exists"
 
 NOT_APPLICABLE = {}
